@@ -104,7 +104,35 @@ func genC11(rng *rand.Rand, n int, emit func(Case), dist map[string]int) {
 				return sb.String()
 			}
 			origin := inst(base)
-			switch rng.Intn(14) {
+			switch rng.Intn(18) {
+			case 12, 13:
+				// letter case changed in the HOST only (scheme kept): the whole host, or one label
+				if i := strings.Index(origin, "://"); i >= 0 {
+					host := origin[i+3:]
+					if rng.Intn(2) == 0 {
+						host = strings.ToUpper(host)
+					} else {
+						ls := strings.Split(host, ".")
+						k := rng.Intn(len(ls))
+						ls[k] = strings.ToUpper(ls[k])
+						host = strings.Join(ls, ".")
+					}
+					origin = origin[:i+3] + host
+					dist["origin_host_case_changed"]++
+				}
+			case 14:
+				// characters that only FOLD to the configured ones (Kelvin sign, long s)
+				// (not against a list with a `?` pattern: echo's `?` is one CHARACTER - regexp `.` -, the model's one byte; they agree on
+				// ASCII origins only, see DESIGN 9.4)
+				hasQM := false
+				for _, p := range eff {
+					hasQM = hasQM || strings.Contains(p, "?")
+				}
+				if i := strings.Index(origin, "://"); i >= 0 && !hasQM {
+					host := strings.NewReplacer("k", "\u212a", "s", "\u017f").Replace(origin[i+3:])
+					origin = origin[:i+3] + host
+					dist["origin_host_unicode_fold"]++
+				}
 			case 0:
 				origin += ".evil.com"
 			case 1:
